@@ -32,6 +32,10 @@ COND_MAX = 1e3
 
 def fmt_c(z):
     z = complex(z)
+    if not (np.isfinite(z.real) and np.isfinite(z.imag)):
+        # a non-finite value observed on the implementation where the model computes a number: the text differs
+        # from anything the model prints (broken correspondence), it is not a fault of the machinery
+        return 'nonfinite'
     re = rat(z.real)
     return re if z.imag == 0 else re + ':' + rat(z.imag)
 
@@ -305,7 +309,11 @@ def gen_basis_case(rng, big):
         src = str(rng.choice(names))
         r = rng.random()
         dst = 't%d' % t
-        if r < 0.2:
+        if r < 0.05:
+            # coefficients of extreme dynamic range (2^-40 .. 2^40), in half of the cases with NaN / +-inf among them
+            cls = XCLASSES_FIN + (XCLASSES_NONFIN if rng.random() < 0.5 else [])
+            case['ops'].append({'op': 'xlc', 'src': src, 'c': [xnum(rng, str(rng.choice(cls))) for _ in range(nm[src])]})
+        elif r < 0.2:
             case['ops'].append({'op': 'lc', 'src': src, 'c': enc_arr(gen_vec(rng, nm[src], bool(rng.random() < 0.3)))})
         elif r < 0.55:
             ix = gen_index(rng, nm[src])
@@ -337,6 +345,9 @@ def gen_basis_case(rng, big):
                 src = str(rng.choice(good))
             if rng.random() < 0.7:
                 case['ops'].append({'op': 'lstsq', 'src': src, 'c': enc_arr(gen_vec(rng, nm[src], cpx[src]))})
+                if rng.random() < 0.3:
+                    # the same combination at a scale of 2^+-(20..40): the answer has to scale with it
+                    case['ops'][-1]['scale'] = int(rng.integers(20, 41)) * int(rng.choice([-1, 1]))
             else:
                 case['ops'].append({'op': 'lstsq', 'src': src, 'y': enc_arr(gen_vec(rng, npix, cpx[src]))})
     return case
@@ -498,6 +509,7 @@ class BasisRun:
         self.skipped = 0
         self.array_backed = set()
         self.current_src = None
+        self.numtol = {}       # line index -> per-element tolerance (extreme dynamic range), else 1e-9 relative
 
     def count(self, k):
         self.counts[k] = self.counts.get(k, 0) + 1
@@ -612,6 +624,39 @@ class BasisRun:
             if grid is not None and getattr(b.linear_combination(c), 'grid', None) is not grid:
                 self.fail('lincomb-grid', 'linear combination is not a Field on the grid of the basis')
             self.emit('C14 lc %s %s' % (op['src'], fmt_vec(c)), 'ok ' + fmt_vec(y))
+        elif kind == 'xlc':
+            b = obj[op['src']]; M, spf = ref[op['src']]
+            sf = 'sparse' if spf else 'dense'
+            c = np.array([xf(x) for x in op['c']], dtype=float)
+            fin = np.isfinite(c)
+            self.count('xlc:' + ('finite' if fin.all() else 'non-finite') + ' coefficients, ' + sf)
+            terms = M[:, fin] * c[fin][None, :]
+            want = terms.sum(axis=1); mag = np.abs(terms).sum(axis=1)
+            must = (np.abs(M[:, ~fin]) > 0).any(axis=1)
+            try:
+                with np.errstate(all='ignore'):
+                    y = np.asarray(b.linear_combination(c.copy()))
+                    y2 = np.asarray(b.linear_combination(c.copy()))
+            except Exception as e:  # noqa
+                self.fail('lincomb-raises ' + sf, 'linear_combination(extreme coefficients) raised %s: %s' % (type(e).__name__, str(e)[:80]))
+                return
+            code = nonfinite_code(y)
+            if y.shape != want.shape:
+                self.fail('lincomb ' + sf, 'linear_combination(extreme coefficients): wrong shape')
+                return
+            if fin.all() and code.any():
+                self.fail('lincomb-extreme ' + sf, 'linear_combination of finite coefficients (2^-40 .. 2^40) is not finite')
+            if np.any(must & (code == 0)):
+                self.fail('lincomb-extreme ' + sf, 'a point under a mode whose coefficient is NaN/inf got a finite value')
+            cmp = (code == 0) & ~must
+            if np.any(cmp & ~(np.abs(y - want) <= XTOL * mag)):
+                self.fail('lincomb-extreme ' + sf, 'linear_combination(coefficients over 2^-40 .. 2^40) differs from matrix · coefficients by more than 1e-12 of the terms of the sum (max %.3g)' % float(np.abs(y - want)[cmp].max()))
+            if not np.array_equal(y, y2, equal_nan=True):
+                self.fail('lincomb-extreme ' + sf, 'two evaluations of linear_combination with the same coefficients differ')
+            if fin.all():
+                self.numeric[len(self.lines)] = y
+                self.numtol[len(self.lines)] = XTOL * mag
+                self.emit('C14 lc %s %s' % (op['src'], fmt_vec(c)), 'numeric')
         elif kind == 'get':
             b = obj[op['src']]; M, spf = ref[op['src']]
             ix = op['ix']
@@ -740,8 +785,13 @@ class BasisRun:
                 self.skipped += 1
                 return
             sf = 'sparse' if sa else 'dense'
+            floor = 1.0
             if 'c' in op:
                 c = dec_arr(op['c'])
+                if op.get('scale'):
+                    c = c * 2.0 ** op['scale']
+                    floor = 0.0       # relative to the coefficients themselves
+                    self.count('lstsq:in-range, coefficients scaled by 2^%s' % ('+(20..40)' if op['scale'] > 0 else '-(20..40)'))
                 y = Ma @ c
                 self.count('lstsq:in-range ' + sf)
             else:
@@ -755,7 +805,7 @@ class BasisRun:
                 return
             if c is not None:
                 err = float(np.abs(x - c).max())
-                if not err <= TOL * max(1.0, float(np.abs(c).max())):
+                if not err <= TOL * max(floor, float(np.abs(c).max())):
                     self.fail('lstsq-inaccurate ' + sf, 'coefficients_for(A·c) on a %s basis of %d independent modes (cond %.0f) misses c by %.2e' % (
                         sf, n, np.linalg.cond(Ma), err))
             else:
@@ -767,6 +817,8 @@ class BasisRun:
                 self.count('lstsq:oracle-only (too large for the exact model)')
                 return
             self.numeric[len(self.lines)] = x
+            if floor == 0.0:
+                self.numtol[len(self.lines)] = TOL * float(np.abs(c).max())
             self.emit('C14 lstsq %s %s' % (op['src'], fmt_vec(y)), 'numeric')
         else:
             raise MachineryError('unknown op ' + kind)
@@ -787,7 +839,7 @@ def gen_mirror_case(rng, big):
         case['M'] = enc_arr(gen_matrix(rng, npix, nact, False, float(rng.choice([0.4, 0.8, 1.0])), bool(rng.random() < 0.3)))
     elif kind.startswith('seg'):
         nseg = int(rng.integers(1, 4))
-        case['S'] = enc_arr(gen_segments(rng, npix, nseg))
+        case['S'] = enc_arr(gen_segments(rng, npix, nseg, weighted=bool(rng.random() < 0.3)))
         nact = 3 * nseg
     else:
         nact = 2
@@ -857,7 +909,7 @@ def gen_mirror_case(rng, big):
     return case
 
 
-def gen_segments(rng, npix, nseg):
+def gen_segments(rng, npix, nseg, weighted=False):
     S = np.zeros((npix, nseg))
     owner = rng.integers(0, nseg + 1, size=npix)      # nseg = belongs to no segment
     for i in range(npix):
@@ -866,7 +918,25 @@ def gen_segments(rng, npix, nseg):
     for j in range(nseg):
         if not S[:, j].any():
             S[int(rng.integers(0, npix)), j] = 1.0
+    if weighted:
+        # segments that are not 0/1 indicators (grey pixels, amplitudes): the general branch of the tip / tilt construction
+        S = S * rng.choice([0.5, 1.0, 2.0], size=S.shape)
     return S
+
+
+def test_field(npix):
+    """the electric field sent through the mirrors: small complex dyadics, different in every pixel class"""
+    return np.array([(1 + i % 3) / 2.0 + 1j * ((i % 2) / 2.0) for i in range(npix)], dtype=complex)
+
+
+def eval_formal_field(got):
+    """'ok AMPS TURNS hit|miss' of the model -> AMPS · exp(2πi·TURNS), the turns reduced mod 1 exactly"""
+    t = got.split()
+    amps = parse_vec(t[1])
+    inner = t[2][1:-1]
+    turns = [Fraction(x.split(':')[0]) for x in inner.split(',')] if inner else []
+    ph = np.array([float(q - (q.numerator // q.denominator)) for q in turns], dtype=float)
+    return amps * np.exp(2j * np.pi * ph)
 
 
 @contextlib.contextmanager
@@ -928,6 +998,32 @@ class MirrorRun:
             IF = dense_of(dm.influence_functions.transformation_matrix).copy()
             if not np.array_equal(IF[:, :S.shape[1]], S):
                 self.bad.append(('segmented-piston-modes', 'the piston block of the influence functions is not the segment basis'))
+            # the model builds the influence functions from the segments and the grid itself (segInfl): piston, tip, tilt
+            # modes in exact rationals; and the oracle: a segment's tip / tilt mode is s·c - beta·s with the regression
+            # coefficient beta of s·c on s (plain NumPy, float64)
+            xs, ys = np.asarray(grid.x, dtype=float), np.asarray(grid.y, dtype=float)
+            want = [S]
+            for cc in (xs, ys):
+                blk = np.zeros_like(S)
+                for j in range(S.shape[1]):
+                    sj = S[:, j]
+                    t = sj * cc
+                    nrm = np.mean(sj ** 2) - np.mean(sj) ** 2
+                    blk[:, j] = t if nrm == 0 else t - ((np.mean(t * sj) - np.mean(sj) * np.mean(t)) / nrm) * sj
+                want.append(blk)
+            want = np.hstack(want)
+            scale = max(1.0, float(np.abs(xs).max(initial=0)), float(np.abs(ys).max(initial=0)))
+            if IF.shape != want.shape or not np.all(np.abs(IF - want) <= 1e-12 * scale):
+                self.bad.append(('segmented-tip-tilt-modes', 'the tip / tilt influence functions are not segment·x (resp. ·y) minus its regression on the segment: max deviation %.3g' % (
+                    float(np.abs(IF - want).max()) if IF.shape == want.shape else float('nan'))))
+            if getattr(self, 'model_on', True) and IF.shape == want.shape:
+                idx = len(self.lines)
+                self.numeric[idx] = IF.ravel().copy()
+                if not hasattr(self, 'numtol'):
+                    self.numtol = {}
+                self.numtol[idx] = 1e-12 * scale
+                self.emit('C14 seginfl %d %s %s %s' % (S.shape[0], fmt_mat(S.T) if S.shape[1] else '-', fmt_vec(xs), fmt_vec(ys)), 'numeric')
+                self.count('segmented-influence-functions built by the model')
             return dm, IF
         if kind == 'tiptilt' and first:
             dm = hcipy.TipTiltMirror(grid)
@@ -963,7 +1059,8 @@ class MirrorRun:
         last_mut = 'init'
         edited_since_read = False
         wl = 0.5
-        wf = hcipy.Wavefront(hcipy.Field(np.ones(npix), grid), wl)
+        self.E = test_field(npix)
+        wf = hcipy.Wavefront(hcipy.Field(self.E.copy(), grid), wl)
         for op in case['ops']:
             try:
                 dm, IF, cur, last_mut, edited_since_read = self.one(op, dm, IF, grid, handles, cur, last_mut, edited_since_read, exact, wf, wl)
@@ -1013,10 +1110,15 @@ class MirrorRun:
             elif o == 'segset':
                 dm.set_segment_actuators(op['id'], op['p'], op['t'], op['tl'])
                 nseg = nact // 3
-                for off, x in ((0, op['p']), (nseg, op['t']), (2 * nseg, op['tl'])):
-                    self.emit('C14 mirror edit %d %d %s' % (cur, op['id'] + off, rat(x)), 'ok')
-                if tuple(dm.get_segment_actuators(op['id'])) != (op['p'], op['t'], op['tl']):
+                # the model executes set_segment_actuators / get_segment_actuators themselves (setSegment / getSegment)
+                self.emit('C14 mirror segset %d %d %s %s %s' % (nseg, op['id'], rat(op['p']), rat(op['t']), rat(op['tl'])), 'ok')
+                got_seg = tuple(float(x) for x in dm.get_segment_actuators(op['id']))
+                if got_seg != (op['p'], op['t'], op['tl']):
                     self.bad.append(('segment-actuators', 'get_segment_actuators does not return what set_segment_actuators stored'))
+                self.emit('C14 mirror segget %d %d' % (nseg, op['id']), 'ok %s %s %s' % tuple(rat(x) for x in got_seg))
+                other = (op['id'] + 1) % nseg
+                self.emit('C14 mirror segget %d %d' % (nseg, other), 'ok %s %s %s' % tuple(rat(float(x)) for x in dm.get_segment_actuators(other)))
+                self.count('mirror-segment-set-get')
                 last_mut = 'inplace-set-segment'
                 edited_since_read = True
             elif o == 'flatten':
@@ -1083,9 +1185,10 @@ class MirrorRun:
                 elif how == 'phase_for':
                     got = np.asarray(dm.phase_for(wl)); want = 2 * ref * k
                 elif how == 'forward':
-                    got = np.asarray(dm.forward(wf).electric_field); want = np.exp(2j * k * ref)
+                    out_wf = dm.forward(wf)
+                    got = np.asarray(out_wf.electric_field); want = self.E * np.exp(2j * k * ref)
                 else:
-                    got = np.asarray(dm.backward(wf).electric_field); want = np.exp(-2j * k * ref)
+                    got = np.asarray(dm.backward(wf).electric_field); want = self.E * np.exp(-2j * k * ref)
                 after = getattr(dm, '_actuators_for_cached_surface', ABSENT)
                 ok_exact = got.shape == want.shape and np.array_equal(got, want)
                 ok_tol = got.shape == want.shape and bool(np.all(np.abs(got - want) <= TOL * max(1.0, float(np.abs(want).max(initial=0)))))
@@ -1106,9 +1209,31 @@ class MirrorRun:
                         else:
                             self.numeric[idx] = np.asarray(got).copy()
                             self.emit('C14 mirror opd', 'numeric')
+                    elif how == 'phase_for':
+                        # the model executes phase_for in turns (readPhase): 2π · its answer
+                        self.numeric[idx] = np.asarray(got) / (2 * np.pi)
+                        self.emit('C14 mirror phase %s' % rat(wl), 'numeric')
                     else:
-                        self.emit('C14 mirror read', 'hit-only')
+                        # forward / backward on the formal field E·exp(2πi·0) (Mirror.forward / Mirror.backward)
+                        self.numeric[idx] = np.asarray(got).copy()
+                        self.emit('C14 mirror %s %s %s %s' % (how, rat(wl), fmt_vec(self.E), fmt_vec(np.zeros(npix))), 'numeric')
                     self.nreads += 1
+                    if how == 'forward':
+                        # back through the mirror: the wavefront must come back unchanged, its power conserved
+                        # (mirror_backward_forward_id); the model is given the reflected field in formal form
+                        before = getattr(dm, '_actuators_for_cached_surface', ABSENT)
+                        back = np.asarray(dm.backward(out_wf).electric_field)
+                        after = getattr(dm, '_actuators_for_cached_surface', ABSENT)
+                        if not np.all(np.abs(back - self.E) <= 1e-12 * np.abs(self.E).max()):
+                            self.bad.append(('forward-backward-roundtrip', '%s: backward(forward(wf)) differs from wf by %.3g' % (kind, float(np.abs(back - self.E).max()))))
+                        if not abs(float(np.sum(np.abs(got) ** 2)) - float(np.sum(np.abs(self.E) ** 2))) <= 1e-12 * float(np.sum(np.abs(self.E) ** 2)):
+                            self.bad.append(('forward-power', '%s: forward changes the total power' % kind))
+                        idx = len(self.lines)
+                        self.hits[idx] = None if before is ABSENT else ('hit' if after is before else 'miss')
+                        self.numeric[idx] = back.copy()
+                        self.emit('C14 mirror backward %s %s %s' % (rat(wl), fmt_vec(self.E), fmt_vec(2 * ref / wl)), 'numeric')
+                        self.nreads += 1
+                        self.count('mirror-forward-backward-roundtrip')
                     before = getattr(dm, '_actuators_for_cached_surface', ABSENT)
                     surf_obj = dm.surface
                     after = getattr(dm, '_actuators_for_cached_surface', ABSENT)
@@ -1133,6 +1258,380 @@ class MirrorRun:
             else:
                 raise MachineryError('unknown mirror op ' + o)
         return dm, IF, cur, last_mut, edited_since_read
+
+
+# ---------------------------------------------------------------------------------------------
+# mirrors: actuator histories with extreme dynamic range and non-finite excursions
+#
+# The property says the surface is a function of the CURRENT actuator vector.  The histories above only ever
+# command small dyadics to mirrors of at most five actuators, so (a) "few of many actuators change" never
+# happens, (b) every float operation is exact - a surface that is *updated* instead of recomputed cannot be told
+# from one that is recomputed.  This family commands values over 2^-40 .. 2^40 (1e-12 .. 1e12), NaN and +-inf,
+# to mirrors of 2..40 actuators, changes few or many of them per step (in place / new vector / set_segment_actuators
+# / flatten / random / +=), withdraws the bad values again, and reads after every step.  Each read is judged
+#   * against IF · (current actuators) computed here, per pixel, at 1e-12 · sum_j |IF_ij a_j|  (a bound relative
+#     to the terms of the CURRENT vector - not to the largest value the surface ever held, no absolute floor),
+#   * against the code's own cache-free evaluation and against a FRESH mirror given the same vector: the
+#     non-finite pattern (NaN / +inf / -inf per pixel) must be identical and a finite command must give a finite surface.
+
+XCLASSES_FIN = ['normal', 'normal', 'huge', 'huge', 'tiny', 'tiny']
+XCLASSES_NONFIN = ['nan', 'nan', 'inf', '-inf']
+XTOL = 1e-12
+
+
+def xf(v):
+    return float(v)
+
+
+def xnum(rng, cls):
+    if cls in ('nan', 'inf', '-inf'):
+        return cls
+    if cls == 'normal':
+        return float(rng.integers(-4, 5)) / float(rng.choice([1, 2]))
+    m = float(rng.choice([1, 3, 5, 7, -1, -3, -5]))
+    e = int(rng.integers(20, 41))
+    return m * 2.0 ** (e if cls == 'huge' else -e)
+
+
+def xclass_of(v):
+    v = xf(v)
+    if not np.isfinite(v):
+        return 'nonfinite'
+    return 'huge' if abs(v) >= 2.0 ** 19 else ('tiny' if 0 < abs(v) <= 2.0 ** -19 else 'normal')
+
+
+def gen_extreme_case(rng, big):
+    kind = str(rng.choice(['dm-sparse', 'dm-sparse', 'dm-sparse', 'dm-dense', 'seg-sparse', 'seg-sparse', 'seg-dense', 'tiptilt']))
+    case = {'type': 'mirror', 'extreme': True, 'kind': kind}
+    if kind.startswith('dm'):
+        nact = int(rng.choice([2, 5, 10, 12, 20, 30, 40]))
+        npix = int(rng.integers(3, 13 if not big else 20))
+        case['M'] = enc_arr(gen_matrix(rng, npix, nact, False, float(rng.choice([0.15, 0.3, 0.6])), bool(rng.random() < 0.3)))
+    elif kind.startswith('seg'):
+        nseg = int(rng.choice([1, 2, 4, 7, 10, 12]))
+        npix = nseg + int(rng.integers(1, 7))
+        case['S'] = enc_arr(gen_segments(rng, npix, nseg))
+        nact = 3 * nseg
+    else:
+        nact = 2
+        npix = int(rng.integers(2, 9))
+    case['npix'] = npix
+    case['nact'] = nact
+    nonfinite = bool(rng.random() < 0.5)
+    case['nonfinite'] = nonfinite
+    case['wl'] = float(2.0 ** int(rng.integers(-3, 3)))
+    classes = XCLASSES_FIN + (XCLASSES_NONFIN * 2 if nonfinite else [])
+    few_max = max(1, nact // 10)          # "few" = at most one actuator in ten
+    vals = [0.0] * nact                   # shadow of the current vector
+    bad = set()                           # positions holding a non-finite / out-of-scale value
+    ops = [{'op': 'read', 'how': 'surface'}] if rng.random() < 0.8 else []
+    nh, cur = 1, 0
+    hows = ['surface'] * 7 + ['opd', 'phase_for', 'forward', 'backward']
+
+    def note(idx):
+        for i in idx:
+            (bad.add if xclass_of(vals[i]) != 'normal' else bad.discard)(i)
+
+    for _ in range(int(rng.integers(4, 10 if not big else 18))):
+        r = rng.random()
+        if bad and r < 0.40:
+            # withdraw the bad values: in place / corrected copy / flatten / set_segment_actuators
+            ways = ['inplace', 'inplace', 'assign', 'flatten'] + (['segset'] if kind.startswith('seg') else [])
+            way = str(rng.choice(ways))
+            if way == 'inplace':
+                for i in sorted(bad):
+                    vals[i] = xnum(rng, str(rng.choice(['normal', 'normal', 'tiny'])))
+                    ops.append({'op': 'edit', 'h': cur, 'i': i, 'v': vals[i], 'via': str(rng.choice(['handle', 'property']))})
+                note(list(bad))
+            elif way == 'assign':
+                for i in sorted(bad):
+                    vals[i] = xnum(rng, 'normal')
+                bad.clear()
+                ops.append({'op': 'assign', 'v': list(vals)})
+                cur = nh; nh += 1
+            elif way == 'flatten':
+                vals = [0.0] * nact; bad.clear()
+                ops.append({'op': 'flatten'})
+                cur = nh; nh += 1
+            else:
+                nseg = nact // 3
+                for s in sorted({i % nseg for i in bad}):
+                    p, t, tl = (xnum(rng, 'normal') for _ in range(3))
+                    vals[s], vals[s + nseg], vals[s + 2 * nseg] = p, t, tl
+                    ops.append({'op': 'segset', 'id': s, 'p': p, 't': t, 'tl': tl})
+                bad.clear()
+            ops[-1]['withdraw'] = way
+        elif r < 0.62 and nact > 0:
+            # poke few actuators in place
+            idx = [int(i) for i in rng.choice(nact, size=min(nact, int(rng.integers(1, few_max + 1))), replace=False)]
+            for i in idx:
+                vals[i] = xnum(rng, str(rng.choice(classes)))
+                ops.append({'op': 'edit', 'h': cur, 'i': i, 'v': vals[i], 'via': str(rng.choice(['handle', 'property']))})
+            note(idx)
+        elif r < 0.72 and nact > 0:
+            # a new vector that differs from the current one in few entries
+            idx = [int(i) for i in rng.choice(nact, size=min(nact, int(rng.integers(1, few_max + 1))), replace=False)]
+            for i in idx:
+                vals[i] = xnum(rng, str(rng.choice(classes)))
+            note(idx)
+            ops.append({'op': 'assign', 'v': list(vals)})
+            cur = nh; nh += 1
+        elif r < 0.80 and kind.startswith('seg'):
+            nseg = nact // 3
+            s = int(rng.integers(0, nseg))
+            p, t, tl = (xnum(rng, str(rng.choice(classes))) for _ in range(3))
+            vals[s], vals[s + nseg], vals[s + 2 * nseg] = p, t, tl
+            note([s, s + nseg, s + 2 * nseg])
+            ops.append({'op': 'segset', 'id': s, 'p': p, 't': t, 'tl': tl})
+        elif r < 0.86:
+            # a completely new command vector (many actuators change)
+            vals = [xnum(rng, str(rng.choice(XCLASSES_FIN + (['nan'] if nonfinite and rng.random() < 0.3 else [])))) for _ in range(nact)]
+            bad.clear(); note(range(nact))
+            ops.append({'op': 'assign', 'v': list(vals)})
+            cur = nh; nh += 1
+        elif r < 0.91:
+            vals = [0.0] * nact; bad.clear()
+            ops.append({'op': 'flatten'})
+            cur = nh; nh += 1
+        elif r < 0.96:
+            z = [float(rng.integers(-6, 7)) / 2.0 for _ in range(nact)]
+            rms = float(2.0 ** int(rng.choice([-30, -2, 0, 1, 30])))
+            vals = [x * rms for x in z]
+            bad.clear(); note(range(nact))
+            ops.append({'op': 'random', 'z': z, 'rms': rms})
+            cur = nh; nh += 1
+        elif nact > 0:
+            d = [xnum(rng, str(rng.choice(['normal', 'tiny', 'huge']))) for _ in range(nact)]
+            vals = [xf(a) + xf(b) for a, b in zip(vals, d)]
+            vals = [v if np.isfinite(v) else ('nan' if np.isnan(v) else ('inf' if v > 0 else '-inf')) for v in vals]
+            bad.clear(); note(range(nact))
+            ops.append({'op': 'iadd', 'd': d})
+        ops.append({'op': 'read', 'how': str(rng.choice(hows))})
+    case['ops'] = ops
+    return case
+
+
+def nonfinite_code(a):
+    """per element: 0 finite, 1 NaN, 2 +inf, 3 -inf (complex: either part)"""
+    a = np.asarray(a)
+    if np.iscomplexobj(a):
+        return np.maximum(nonfinite_code(a.real), nonfinite_code(a.imag))
+    out = np.zeros(a.shape, dtype=int)
+    out[np.isnan(a)] = 1
+    out[np.isposinf(a)] = 2
+    out[np.isneginf(a)] = 3
+    return out
+
+
+class ExtremeRun(MirrorRun):
+    """One history of the extreme-dynamic-range family.  The Lean model (exact rationals) is driven along whenever
+    every commanded value is finite; histories with NaN / inf are judged by the oracle alone."""
+
+    def emit(self, line, impl):
+        if self.model_on:
+            MirrorRun.emit(self, line, impl)
+
+    def run(self):
+        import hcipy
+        case = self.case
+        npix, nact, kind = case['npix'], case['nact'], case['kind']
+        self.model_on = not case['nonfinite']
+        self.numtol = {}
+        self.nontrivial = True
+        grid = make_grid(npix)
+        try:
+            dm, IF = self.set_if(None, grid, case, True)
+        except Exception as e:  # noqa
+            self.bad.append(('mirror-construct-raises ' + kind, 'constructing the %s mirror raised %s: %s' % (kind, type(e).__name__, str(e)[:80])))
+            return self
+        self.emit('C14 mirror new %d %d %s' % (IF.shape[0], IF.shape[1], fmt_mat(IF)), 'ok')
+        self.count('extreme-nact:%d' % nact)
+        self.count('extreme-model:' + ('driven along (all values finite)' if self.model_on else 'oracle only (non-finite values)'))
+        wl = case['wl']
+        self.E = test_field(npix)
+        st = {'dm': dm, 'IF': IF, 'handles': [dm.actuators], 'cur': 0, 'last': 'init', 'wl': wl,
+              'wf': hcipy.Wavefront(hcipy.Field(self.E.copy(), grid), wl), 'prev': None, 'dirty': None, 'withdrawn': False}
+        for op in case['ops']:
+            try:
+                with np.errstate(all='ignore'):
+                    self.xone(op, st)
+            except MachineryError:
+                raise
+            except Exception as e:  # noqa
+                self.bad.append(('mirror-op-raises ' + op['op'], '%s: %s after %s raised %s: %s' % (kind, op['op'], st['last'], type(e).__name__, str(e)[:80])))
+                return self
+        return self
+
+    def xone(self, op, st):
+        import hcipy
+        case = self.case
+        npix, nact, kind = case['npix'], case['nact'], case['kind']
+        dm, handles = st['dm'], st['handles']
+        o = op['op']
+        self.count('extreme-op:' + o)
+        if 'withdraw' in op:
+            self.count('extreme-withdraw:' + op['withdraw'])
+            st['withdrawn'] = True
+        if o == 'assign':
+            arr = np.array([xf(x) for x in op['v']], dtype=float)
+            dm.actuators = arr
+            handles.append(arr); st['cur'] = len(handles) - 1
+            if self.model_on:
+                self.emit('C14 mirror assign ' + fmt_vec(arr), 'ok %d' % st['cur'])
+            st['last'] = 'assign'
+        elif o == 'edit':
+            tgt = dm.actuators if op.get('via') == 'property' else handles[op['h']]
+            tgt[op['i']] = xf(op['v'])
+            if self.model_on:
+                self.emit('C14 mirror edit %d %d %s' % (op['h'], op['i'], rat(xf(op['v']))), 'ok')
+            st['last'] = 'inplace-edit'
+            self.count('extreme-value:' + xclass_of(op['v']))
+        elif o == 'segset':
+            p, t, tl = xf(op['p']), xf(op['t']), xf(op['tl'])
+            dm.set_segment_actuators(op['id'], p, t, tl)
+            nseg = nact // 3
+            if self.model_on:
+                self.emit('C14 mirror segset %d %d %s %s %s' % (nseg, op['id'], rat(p), rat(t), rat(tl)), 'ok')
+                self.emit('C14 mirror segget %d %d' % (nseg, op['id']), 'ok %s %s %s' % tuple(rat(float(x)) for x in dm.get_segment_actuators(op['id'])))
+            if not np.array_equal(np.array(dm.get_segment_actuators(op['id']), dtype=float), np.array([p, t, tl]), equal_nan=True):
+                self.bad.append(('segment-actuators', 'get_segment_actuators does not return what set_segment_actuators stored'))
+            st['last'] = 'inplace-set-segment'
+        elif o == 'flatten':
+            dm.flatten()
+            handles.append(dm.actuators); st['cur'] = len(handles) - 1
+            self.emit('C14 mirror flatten', 'ok %d' % st['cur'])
+            fl = np.asarray(dm.actuators)
+            if fl.shape != (nact,) or not np.all(fl == 0):
+                self.bad.append(('flatten-not-zero', '%s: after flatten() the actuators are not all zero (the vector before held %s)' % (kind, st['last'])))
+            st['last'] = 'flatten'
+        elif o == 'random':
+            with patched_randn(op['z']):
+                dm.random(op['rms'])
+            handles.append(dm.actuators); st['cur'] = len(handles) - 1
+            if self.model_on:
+                self.emit('C14 mirror random ' + fmt_vec(np.asarray(dm.actuators)), 'ok %d' % st['cur'])
+            if not np.array_equal(np.asarray(dm.actuators), np.array(op['z']) * op['rms']):
+                self.bad.append(('mirror-random', 'random(rms) did not set the actuators to randn·rms'))
+            st['last'] = 'random'
+        elif o == 'iadd':
+            dm.actuators += np.array([xf(x) for x in op['d']], dtype=float)
+            if self.model_on:
+                for i, x in enumerate(np.asarray(dm.actuators)):
+                    self.emit('C14 mirror edit %d %d %s' % (st['cur'], i, rat(float(x))), 'ok')
+            st['last'] = 'inplace-iadd'
+        elif o == 'read':
+            self.xread(op['how'], st)
+        else:
+            raise MachineryError('unknown extreme mirror op ' + o)
+
+    def xread(self, how, st):
+        import hcipy
+        case = self.case
+        npix, nact, kind = case['npix'], case['nact'], case['kind']
+        dm, IF, wl, wf = st['dm'], st['IF'], st['wl'], st['wf']
+        if dm.actuators is not st['handles'][st['cur']]:
+            self.bad.append(('mirror-actuator-identity', 'the mirror does not hold the array it was given / handed out'))
+        a = np.asarray(dm.actuators, dtype=float).copy()
+        fin = np.isfinite(a)
+        # independent reference: finite part of IF · a per pixel, with the magnitude of its terms
+        terms = IF[:, fin] * a[fin][None, :] if nact > 0 else np.zeros((npix, 0))
+        ref = terms.sum(axis=1)
+        mag = np.abs(terms).sum(axis=1)
+        must_nonfinite = (np.abs(IF[:, ~fin]) > 0).any(axis=1) if nact > 0 else np.zeros(npix, dtype=bool)
+        # history-free evaluations by the code under test itself
+        Tobj = dm.influence_functions
+        free = np.asarray(Tobj.linear_combination(a.copy()))
+        fresh = hcipy.DeformableMirror(Tobj)
+        fresh.actuators = a.copy()
+        k = 2 * np.pi / wl
+        before = getattr(dm, '_actuators_for_cached_surface', ABSENT)
+        if how == 'surface':
+            surf_obj = dm.surface
+            got = np.asarray(surf_obj).copy(); want = ref; tol = XTOL * mag; fr = np.asarray(fresh.surface)
+        elif how == 'opd':
+            got = np.asarray(dm.opd); want = 2 * ref; tol = 2 * XTOL * mag; fr = np.asarray(fresh.opd)
+        elif how == 'phase_for':
+            got = np.asarray(dm.phase_for(wl)); want = 2 * ref * 2 * np.pi / wl; tol = 2 * XTOL * mag * k + 8e-16 * np.abs(want); fr = np.asarray(fresh.phase_for(wl))
+        else:
+            sgn = 1.0 if how == 'forward' else -1.0
+            got = np.asarray((dm.forward if how == 'forward' else dm.backward)(wf).electric_field)
+            fr = np.asarray((fresh.forward if how == 'forward' else fresh.backward)(wf).electric_field)
+            phi = 2 * k * ref
+            want = self.E * np.exp(1j * sgn * phi)
+            tol = 2 * (2 * k * XTOL * mag + 2e-15 * np.abs(phi) + 1e-14)
+        after = getattr(dm, '_actuators_for_cached_surface', ABSENT)
+        where = '%s (%d actuators) read through %s after %s' % (kind, nact, how, st['last'])
+        hist = ' [history: a non-finite / out-of-scale command was read earlier%s]' % (' and has been withdrawn' if st['withdrawn'] else '') if st['dirty'] else ''
+        ok = True
+        if got.shape != want.shape:
+            self.bad.append(('surface-shape', where + ': shape %s' % (got.shape,)))
+            return
+        code_got, code_fr = nonfinite_code(got), nonfinite_code(fr)
+        if how in ('surface', 'opd', 'phase_for'):
+            code_free = nonfinite_code(free)
+            if not np.array_equal(code_got, code_free) or not np.array_equal(code_got, code_fr):
+                ok = False
+                self.bad.append(('surface-history nonfinite-residue', where + ': %d pixel(s) are NaN/inf where influence_functions.linear_combination(current actuators) and a fresh mirror with the same actuators are finite (or the reverse)%s' % (
+                    int((code_got != code_fr).sum() + (code_got != code_free).sum()), hist)))
+            if np.any(must_nonfinite & (code_got == 0)):
+                ok = False
+                self.bad.append(('surface-ignores-nonfinite-actuator', where + ': a pixel under the influence function of an actuator commanded to NaN/inf is finite'))
+            if fin.all() and np.any(code_got != 0):
+                ok = False
+                self.bad.append(('surface-history nonfinite-residue', where + ': every current actuator is finite but the surface is not%s' % hist))
+        else:
+            if not np.array_equal(code_got != 0, code_fr != 0):
+                ok = False
+                self.bad.append(('surface-history nonfinite-residue', where + ': the non-finite pixels of the reflected field differ from those of a fresh mirror with the same actuators%s' % hist))
+        cmp = (code_got == 0) & (nonfinite_code(want) == 0) & ~must_nonfinite & (tol < 0.5)
+        dev = np.abs(got - want)
+        if np.any(cmp & ~(dev <= tol)):
+            ok = False
+            i = int(np.argmax(np.where(cmp, dev - tol, -np.inf)))
+            self.bad.append(('surface-history scale-residue', where + ': pixel %d is %r, (influence functions)·(current actuators) is %r: off by %.3g where the terms of the current sum allow %.3g%s' % (
+                i, complex(got[i]) if np.iscomplexobj(got) else float(got[i]), complex(want[i]) if np.iscomplexobj(want) else float(want[i]), float(dev[i]), float(tol[i]), hist)))
+        if not np.array_equal(np.asarray(dm.actuators, dtype=float), a, equal_nan=True):
+            self.bad.append(('read-changes-actuators', 'reading the surface changed the actuators'))
+        self.count('extreme-read:' + how)
+        self.count('extreme-read-current-vector:' + ('finite' if fin.all() else 'non-finite'))
+        if st['dirty']:
+            self.count('extreme-read-after-bad-value-was-read:' + ('withdrawn' if fin.all() and not (np.abs(a) >= 2.0 ** 19).any() else 'still commanded'))
+        if st['prev'] is not None and st['prev'].shape == a.shape:
+            nchg = int((~((st['prev'] == a) | (np.isnan(st['prev']) & np.isnan(a)))).sum())
+            self.count('extreme-changed-since-last-read:' + ('none' if nchg == 0 else ('few (<= 1 in 10)' if nchg * 10 <= nact else 'many')))
+        st['prev'] = a
+        if (not fin.all()) or (np.abs(a) >= 2.0 ** 19).any():
+            st['dirty'] = True
+            st['withdrawn'] = False
+        # correspondence (finite histories): the model computes the exact rational surface
+        if not self.model_on:
+            return
+        idx = len(self.lines)
+        self.hits[idx] = None if before is ABSENT else ('hit' if after is before else 'miss')
+        if how != 'surface':
+            if how == 'opd':
+                self.numeric[idx] = np.asarray(got).copy(); self.numtol[idx] = 2 * XTOL * mag
+                self.emit('C14 mirror opd', 'numeric')
+            elif how == 'phase_for':
+                self.numeric[idx] = np.asarray(got) / (2 * np.pi); self.numtol[idx] = tol / (2 * np.pi)
+                self.emit('C14 mirror phase %s' % rat(wl), 'numeric')
+            else:
+                self.numeric[idx] = np.asarray(got).copy(); self.numtol[idx] = np.where(tol < 0.5, tol, np.inf)
+                self.emit('C14 mirror %s %s %s %s' % (how, rat(wl), fmt_vec(self.E), fmt_vec(np.zeros(npix))), 'numeric')
+            self.nreads += 1
+            before = getattr(dm, '_actuators_for_cached_surface', ABSENT)
+            surf_obj = dm.surface
+            after = getattr(dm, '_actuators_for_cached_surface', ABSENT)
+            idx = len(self.lines)
+            self.hits[idx] = None if before is ABSENT else ('hit' if after is before else 'miss')
+        surf_now = np.asarray(surf_obj).copy()
+        self.nreads += 1
+        self.numeric[idx] = surf_now; self.numtol[idx] = XTOL * mag
+        self.emit('C14 mirror read', 'numeric')
+        idx = len(self.lines)
+        self.numeric[idx] = np.concatenate([free, 2 * free]); self.numtol[idx] = np.concatenate([XTOL * mag, 2 * XTOL * mag])
+        self.emit('C14 mirror ideal', 'numeric')
+        self.count('mirror-ideal')
 
 
 # ---------------------------------------------------------------------------------------------
@@ -1234,17 +1733,76 @@ def directed_cases():
     out.append({'type': 'mirror', 'kind': 'seg-dense', 'npix': 4, 'nact': 6, 'S': _m([[1, 0], [1, 0], [0, 1], [0, 0]]),
                 'ops': [{'op': 'segset', 'id': 1, 'p': 1.0, 't': 0.5, 'tl': -0.5}, {'op': 'read', 'how': 'surface'},
                         {'op': 'sedit', 'j': 0, 'i': 2, 'v': 9.0, 'mode': 'item'}, {'op': 'read', 'how': 'surface'}]})
+    # extreme dynamic range / non-finite excursions (round 5): read, poke one of ten actuators to NaN / inf / 2^40,
+    # read, withdraw (in place / flatten / corrected copy), read - on sparse and dense influence functions
+    D10 = np.zeros((6, 10))
+    for j in range(10):
+        D10[j % 6, j] = 1.0 + j % 3
+        D10[(j + 2) % 6, j] = -0.5
+    rd = {'op': 'read', 'how': 'surface'}
+    for kind in ('dm-sparse', 'dm-dense'):
+        for badv, nonfin in (('nan', True), ('inf', True), (2.0 ** 40, False)):
+            out.append({'type': 'mirror', 'extreme': True, 'kind': kind, 'npix': 6, 'nact': 10, 'M': enc_arr(D10), 'nonfinite': nonfin, 'wl': 0.5,
+                        'ops': [rd, {'op': 'edit', 'h': 0, 'i': 3, 'v': 1.5, 'via': 'handle'}, rd,
+                                {'op': 'edit', 'h': 0, 'i': 4, 'v': badv, 'via': 'handle'}, rd,
+                                {'op': 'edit', 'h': 0, 'i': 4, 'v': 2.0 ** -30, 'via': 'property', 'withdraw': 'inplace'}, rd,
+                                {'op': 'edit', 'h': 0, 'i': 7, 'v': badv, 'via': 'handle'}, {'op': 'read', 'how': 'opd'},
+                                {'op': 'flatten', 'withdraw': 'flatten'}, rd,
+                                {'op': 'assign', 'v': [0.0] * 9 + [badv]}, {'op': 'read', 'how': 'phase_for'},
+                                {'op': 'assign', 'v': [0.0] * 9 + [0.25], 'withdraw': 'assign'}, {'op': 'read', 'how': 'forward'}, rd]})
+    out.append({'type': 'mirror', 'extreme': True, 'kind': 'seg-sparse', 'npix': 12, 'nact': 30, 'nonfinite': True, 'wl': 1.0,
+                'S': enc_arr(np.vstack([np.eye(10), np.eye(10)[:2]])),
+                'ops': [rd, {'op': 'segset', 'id': 3, 'p': 'nan', 't': 0.5, 'tl': '-inf'}, rd,
+                        {'op': 'segset', 'id': 3, 'p': 1.0, 't': 0.5, 'tl': -0.5, 'withdraw': 'segset'}, rd,
+                        {'op': 'segset', 'id': 0, 'p': 2.0 ** 40, 't': 0.0, 'tl': 0.0}, rd,
+                        {'op': 'segset', 'id': 0, 'p': 2.0 ** -40, 't': 0.0, 'tl': 0.0, 'withdraw': 'segset'}, rd]})
     return out
 
 
 # ---------------------------------------------------------------------------------------------
 
+class SliceBoxRun:
+    """Exhaustive tie of the model's `sliceIndices` / `sliceIdx` to CPython's slice.indices on a box:
+    every n <= nmax and every start / stop / step in [-v, v] ∪ {None}."""
+
+    def __init__(self, case):
+        self.case = case
+        self.bad, self.counts, self.numeric, self.hits, self.numtol = [], {}, {}, {}, {}
+        self.lines, self.impl = ['C14 reset'], [None]
+        self.nontrivial = True
+
+    def run(self):
+        vals = [None] + list(range(-self.case['v'], self.case['v'] + 1))
+        f = lambda x: '-' if x is None else str(x)  # noqa: E731
+        for n in range(self.case['nmax'] + 1):
+            for a in vals:
+                for b in vals:
+                    for c in vals:
+                        self.lines.append('C14 sliceidx %d %s %s %s' % (n, f(a), f(b), f(c)))
+                        if c == 0:
+                            try:
+                                slice(a, b, c).indices(n)
+                                self.impl.append('ok ?')
+                            except ValueError:
+                                self.impl.append('err value')
+                            continue
+                        t = slice(a, b, c).indices(n)
+                        self.impl.append('ok %d %d %d [%s]' % (t[0], t[1], t[2], ','.join(str(x) for x in range(*t))))
+        self.counts['slice-box requests (n <= %d, start/stop/step in [-%d,%d] or None)' % (self.case['nmax'], self.case['v'], self.case['v'])] = len(self.lines) - 1
+        return self
+
+
 def is_read(line):
-    return line.endswith('mirror read') or line.endswith('mirror opd')
+    t = line.split()
+    return len(t) >= 3 and t[1] == 'mirror' and t[2] in ('read', 'opd', 'phase', 'forward', 'backward')
 
 
 def execute(case):
-    return (BasisRun(case) if case['type'] == 'basis' else MirrorRun(case)).run()
+    if case['type'] == 'basis':
+        return BasisRun(case).run()
+    if case['type'] == 'slicebox':
+        return SliceBoxRun(case).run()
+    return (ExtremeRun(case) if case.get('extreme') else MirrorRun(case)).run()
 
 
 def run(ctx):
@@ -1257,7 +1815,8 @@ def run(ctx):
                 'SegmentedDeformableMirror (dense/sparse segments), TipTiltMirror with 6-15 operations: assign new array, re-assign an '
                 'array handed out earlier, in-place edit of the current or of an earlier array (through the kept handle or through '
                 'dm.actuators; also changes of 2^-30), +=, set_segment_actuators, flatten, random (draw patched to dyadic data), new influence functions / '
-                'segments, reads through surface / opd / phase_for / forward / backward, in-place edits (item / *= 0 / fill) of a surface array that an earlier read of dm.surface returned (12% of the steps, mostly the latest array, 75% followed by a read). Exact comparison where all arithmetic is on '
+                'segments, reads through surface / opd / phase_for / forward / backward; extreme histories (220 per quick run): mirrors of 2..40 actuators (sparse and dense influence functions, segmented up to 12 segments, tip-tilt) '
+                'commanded values over 2^-40..2^40 and, in half of the cases, NaN / +-inf; few (<= 1 in 10) or many actuators change per step (in-place poke, new vector differing in few entries, set_segment_actuators, full vector, flatten, random, +=), bad values are withdrawn again (in place / corrected copy / flatten / set_segment_actuators), a read after every step judged per pixel at 1e-12 of the terms of the CURRENT sum (no absolute floor) and, for the NaN/inf pattern, against the cache-free evaluation and a fresh mirror; basis cases also linear_combination with such coefficients and coefficients_for at scales 2^+-(20..40); in-place edits (item / *= 0 / fill) of a surface array that an earlier read of dm.surface returned (12% of the steps, mostly the latest array, 75% followed by a read). Exact comparison where all arithmetic is on '
                 'small dyadics, 1e-9 relative otherwise. Non-trivial: basis case with >=1 mode and >=1 derived basis; mirror case '
                 'with an in-place edit of the held actuator array between two reads or an edit of a returned surface array.')
     ctx.assumptions += ['NumPy/SciPy indexing, hstack, dot and lstsq meet their specifications (the reference uses plain ndarray arithmetic and Python list indexing)',
@@ -1272,6 +1831,10 @@ def run(ctx):
         cases.append(gen_lstsq_case(ctx.rng))
     for k in range(nm):
         cases.append(gen_mirror_case(ctx.rng, big=(ctx.tier == 'thorough' and k % 4 == 0)))
+    for k in range(ctx.scale(220, 3000)):
+        cases.append(gen_extreme_case(ctx.rng, big=(ctx.tier == 'thorough' and k % 4 == 0)))
+    # exhaustive tie of slice.indices on a box (quick: n <= 6, arguments in [-8, 8] or None; thorough: n <= 12, [-15, 15])
+    cases.append({'type': 'slicebox', 'nmax': ctx.scale(6, 12), 'v': ctx.scale(8, 15)})
     all_lines, spans, runs = [], [], []
     for case in cases:
         r = execute(case)
@@ -1291,9 +1854,12 @@ def run(ctx):
                    tuple(b['form'] for b in case['bases']), tuple(o['op'] for o in case['ops']))
             ctx.case({'type': 'basis', 'npix': case['npix'], 'forms': [b['form'] for b in case['bases']], 'ops': [o['op'] for o in case['ops']]},
                      sig if nmA >= 1 and derived >= 1 else None)
+        elif case['type'] == 'slicebox':
+            ctx.case({'type': 'slicebox', 'nmax': case['nmax'], 'v': case['v']}, ('slicebox', case['nmax'], case['v']))
         else:
-            ctx.count('mirror-kind:' + case['kind'])
-            ctx.count('mirror-nact:%d' % case['nact'])
+            ctx.count(('mirror-kind:' if not case.get('extreme') else 'extreme-mirror-kind:') + case['kind'])
+            if not case.get('extreme'):
+                ctx.count('mirror-nact:%d' % case['nact'])
             sig = (case['kind'], case['npix'], case['nact'], tuple(o['op'] for o in case['ops']))
             ctx.case({'type': 'mirror', 'kind': case['kind'], 'ops': [o['op'] for o in case['ops']]}, sig if r.nontrivial else None)
         spans.append((len(all_lines), len(r.lines)))
@@ -1314,11 +1880,31 @@ def run(ctx):
                 if got.startswith('err rank'):
                     ctx.disagree(stream, {'line': r.lines[j], 'impl': 'independent modes', 'model': got})
                     break
-                vec = parse_vec(got.split()[1])
+                if not got.startswith('ok'):
+                    ctx.disagree(stream, {'line': r.lines[j], 'impl': 'answers', 'model': got, 'case': case})
+                    break
+                tk = r.lines[j].split()
+                if tk[1] == 'mirror' and tk[2] in ('forward', 'backward'):
+                    vec = eval_formal_field(got)
+                    # the power the model computes (`power`, exact) against the power of the field the code returned
+                    pw_model = float(Fraction(got.split()[3].split(':')[0]))
+                    pw_impl = float(np.sum(np.abs(np.asarray(r.numeric[j])) ** 2))
+                    if np.isfinite(pw_impl) and not abs(pw_model - pw_impl) <= 1e-9 * max(pw_model, 1e-300):
+                        ctx.disagree(stream + ' power', {'line': r.lines[j], 'impl': pw_impl, 'model': pw_model, 'case': case})
+                        break
+                elif tk[1] == 'seginfl':
+                    body = got.split()[1]
+                    vec = np.concatenate([parse_vec(rw) for rw in body.split(';')]) if body != '-' else np.zeros(0, dtype=complex)
+                else:
+                    vec = parse_vec(got.split()[1])
                 if r.lines[j].endswith('mirror ideal') and got.startswith('ok'):
                     vec = np.concatenate([vec, parse_vec(got.split()[2])])
                 x = np.asarray(r.numeric[j])
-                if vec.shape != x.shape or not np.all(np.abs(vec - x) <= TOL * max(1.0, float(np.abs(vec).max(initial=0)))):
+                # per-element tolerance where the case supplies one (extreme dynamic range: relative to the terms of the
+                # current sum, no absolute floor), else 1e-9 relative to the largest element
+                tolj = getattr(r, 'numtol', {}).get(j)
+                lim = TOL * max(1.0, float(np.abs(vec).max(initial=0))) if tolj is None else np.asarray(tolj)
+                if vec.shape != x.shape or not np.all(np.abs(vec - x) <= lim):
                     key = None
                     ctx.disagree(stream, {'line': r.lines[j], 'impl': fmt_vec(x), 'model': got, 'case': case}, key=key)
                     break
